@@ -119,11 +119,6 @@ func init() {
 				argv = append(argv, c03Units[c.Choose(len(c03Units))]...)
 			}
 		}
-		// IgnoreUnknown with an UnknownOptionHandler installed as well: the unknown options are still passed through (vectors of up to 3 units)
-		withHandler := false
-		if oi&4 != 0 && n < maxDepth {
-			withHandler = c.Bool()
-		}
 		key := fmt.Sprintf("d%d/o%d", di, oi)
 		d := cache[key]
 		if d == nil {
@@ -132,13 +127,9 @@ func init() {
 			cache[key] = d
 		}
 		c.Describe(func() interface{} {
-			return map[string]interface{}{"declaration": di, "options": fmt.Sprintf("PassDoubleDash=%v PassAfterNonOption=%v IgnoreUnknown=%v", oi&1 != 0, oi&2 != 0, oi&4 != 0), "mode": []string{"tags", "api+Execute", "api+CommandHandler"}[mode], "argv": argv, "unknown_option_handler_installed_too": withHandler}
+			return map[string]interface{}{"declaration": di, "options": fmt.Sprintf("PassDoubleDash=%v PassAfterNonOption=%v IgnoreUnknown=%v", oi&1 != 0, oi&2 != 0, oi&4 != 0), "mode": []string{"tags", "api+Execute", "api+CommandHandler"}[mode], "argv": argv}
 		})
 		cfg := &ref.Config{D: d}
-		if withHandler {
-			cfg.Handler = ref.HandlerKeep
-			c.Hit("ignore-unknown-with-handler")
-		}
 		res := ref.Run(cfg, argv)
 		if msg := res.CheckInvariants(argv); msg != "" {
 			c.Fail("model-invariant", msg)
@@ -221,7 +212,7 @@ func init() {
 		ShardDepth: 5,
 		Body:       body,
 		Rule: "10 declarations (positional layouts none/1/2/1+rest/int, required or optional or nested executable commands with own positionals) x all 8 subsets of {PassDoubleDash, PassAfterNonOption, IgnoreUnknown} " +
-			"x {struct tags | API+Execute | API+CommandHandler} x every sequence of <= 4 (quick) / <= 5 (thorough) units over 18 units ('', -, --, ---x, a word whose second character is a dash (s-1), unknown short/long/cluster, an unknown long name that is a proper prefix of a declared one, repeated plain words, known flag, option+value, a bool-kinded Unmarshaler option + value, a token that is a quoted Go literal, command words, a number), plus beyond that bound [w, unit, unit' x {7,8,9,17}]; with IgnoreUnknown also with an UnknownOptionHandler installed (vectors one unit shorter): the handler must not get to drop what IgnoreUnknown passes through; " +
+			"x {struct tags | API+Execute | API+CommandHandler} x every sequence of <= 4 (quick) / <= 5 (thorough) units over 18 units ('', -, --, ---x, a word whose second character is a dash (s-1), unknown short/long/cluster, an unknown long name that is a proper prefix of a declared one, repeated plain words, known flag, option+value, a bool-kinded Unmarshaler option + value, a token that is a quoted Go literal, command words, a number), plus beyond that bound [w, unit, unit' x {7,8,9,17}]; " +
 			"oracle = CLM remaining arguments, plus (independent of the CLM) remaining arguments must be a subsequence of argv; also compared with what Execute / CommandHandler received and with the positional fields",
 		Assumptions:  []string{"only vectors that both the model and the parser accept are compared (rejections belong to C04/C07/C08)"},
 		RequiredHits: []string{"compared", "nonempty-rest", "class:terminator", "class:ignored-unknown", "class:pass-after-non-option", "exec-args-compared"},
